@@ -320,7 +320,7 @@ def r9_location_pair(c, facts, rule='C16.R9'):
     # rename_qualifier is left out on purpose: a qualifier and its uses live in one module, so filing all its edits
     # under the definition's document is the same program
     for q in ('oal_client::lsp::handlers::rename_variable',):
-        fn = c.anchor(R, q)
+        fn = facts.normalised(c.anchor(R, q))      # a new private helper that builds (uri, edit) from one Location is read in place
         idx = MF.defs_index(fn)
         for b, t in P.call_blocks(fn, 'TextEdit::new'):
             ro = _origin(fn, t['args'][0], idx)
@@ -343,7 +343,7 @@ def r9_location_pair(c, facts, rule='C16.R9'):
                                     calls += c2
                                     work = True
                 for name, ct, cb, ai in list(calls):
-                    if 'into_vec' in name and ct['dest']['l'] not in derived:
+                    if ('into_vec' in name or P.strip(name).endswith('Try::branch')) and ct['dest']['l'] not in derived:
                         d2, c2 = MF.forward_uses(fn, ct['dest']['l'])
                         derived |= d2
                         calls += c2
@@ -375,6 +375,28 @@ def r9_location_pair(c, facts, rule='C16.R9'):
                     elif len(t2['args']) > 2:
                         keys.append(t2['args'][1])
             ko = {_origin(fn, k, idx) for k in keys}
+
+            def uri_bases(k):
+                """the Locations whose `uri` field flows into key k (through tuples, Ok(..) and `?` of a spliced helper)"""
+                out = set()
+                if 'l' not in k:
+                    return out
+                ls = MF.slice_back(fn, k['l'], idx)['locals'] | {k['l']}
+                for _, blk2 in fn.blocks():
+                    for st3 in blk2['stmts']:
+                        if st3['s'] != 'assign' or st3['place']['l'] not in ls:
+                            continue
+                        rv3 = st3['rv']
+                        srcs = [rv3['place']] if rv3['r'] in ('ref',) else [o for o in MF.operands_of_rvalue(rv3) if 'l' in o]
+                        for o in srcs:
+                            fp3 = tuple(x for x in MF.field_path(o) if not x.startswith('<'))
+                            if fp3[-1:] == ('uri',):
+                                out.add(o['l'])
+                return out
+            if ko and not all(o and o[0] == ro[0] and o[1][-1:] == ('uri',) for o in ko):
+                ub = [uri_bases(k) for k in keys]
+                if ub and all(u == {ro[0]} for u in ub):
+                    ko = {(ro[0], ('uri',))}
             inst = {'fn': q, 'range_of': 'local %d' % ro[0], 'filed_under': sorted('local %d.%s' % (o[0], '.'.join(o[1])) for o in ko if o)}
             if not ko:
                 c.bad(R, '%s:edit-not-filed' % q.split('::')[-1], '%s builds an edit that is not stored under any document' % q, **inst)
